@@ -1,7 +1,7 @@
 (** Property C01 — theorems only.  [run] is the reference semantics (Core.Sem); the extracted [run] is
     the oracle of the failing-input search in harness/props/C01.py. *)
 From Coq Require Import ZArith List Bool.
-From Core Require Import Syntax Sem Equiv PartialEval PartialEvalSound Subst RewriteAt ShiftLoop DivideLoop FissionFuse ReorderLoops RewriteAtL RemoveLoop UnrollLoop CutLoop.
+From Core Require Import Syntax Sem Equiv PartialEval PartialEvalSound Subst RewriteAt ShiftLoop DivideLoop FissionFuse ReorderLoops RewriteAtL RemoveLoop UnrollLoop CutLoop FissionProc.
 Import ListNotations.
 Local Open Scope Z_scope.
 
@@ -320,3 +320,10 @@ Theorem C01_cut_proc : forall i i2 mid p,
   CutLoop.cut_ok_proc i i2 mid p = true -> preserves p (CutLoop.cut_proc i i2 mid p).
 Proof. intros i i2 mid p Hs H inp bufs cfg. apply CutLoop.cut_proc_preserves; assumption. Qed.
 Print Assumptions C01_cut_proc.
+
+(** fission (one lift out of a loop) on the whole procedure, under the contract of Check_FissionLoop *)
+Theorem C01_fission_proc : forall i k p,
+  (forall s l, FissionProc.fission_f i k s = Some l -> FissionProc.fission_sem_ok k s) ->
+  FissionProc.fission_ok_proc i k p = true -> preserves p (FissionProc.fission_proc i k p).
+Proof. intros i k p Hs H inp bufs cfg. apply FissionProc.fission_proc_preserves; assumption. Qed.
+Print Assumptions C01_fission_proc.
